@@ -3,6 +3,7 @@
 From Coq Require Import ZArith List Bool.
 From PV Require Import Model.Base Model.Sched Model.Chan Model.Seq Model.SeqSnap.
 From PV Require Gen.Pure Gen.PureLoops Gen.PureState Model.Chan Proofs.PureEq Proofs.PureLoopsEq Proofs.PureStateEq.
+From PV Require Proofs.SourceTie.
 From PV Require Import Proofs.SchedInv Proofs.SchedOps Proofs.SeqInv Proofs.DurationSpec Proofs.AlignWitness.
 Import ListNotations.
 Open Scope Z_scope.
@@ -136,3 +137,10 @@ Theorem C02_source_add_pulse :
     Gen.PureState.gen_add_pulse e p n barriers proto dp s = add_pulse e p n barriers proto dp s.
 Proof. exact PureStateEq.add_pulse_eq. Qed.
 Print Assumptions C02_source_add_pulse.
+
+(** The whole translation tie of the scheduler (see Proofs/SourceTie.v): every
+    scheduler function of the model this property's theorems rest on is equal to
+    the function regenerated from the current source. *)
+Theorem C02_source_scheduler : SourceTie.scheduler_tied.
+Proof. exact SourceTie.scheduler_source_tie. Qed.
+Print Assumptions C02_source_scheduler.
